@@ -3,6 +3,7 @@ R-BOOK reference (a dict) in lock-step."""
 from collections import deque
 import copy
 import math
+import itertools
 from mcx.harness import *  # noqa
 from mcx.common import Report, pmap, seed
 from tradingenv.contracts import ETF, ES, FutureChain, Index
@@ -239,8 +240,73 @@ def _work(unit):
     return search(first_ops, depth)
 
 
+def standalone_case(opening, hist):
+    """A LimitOrderBook used on its own (public constructor, with or without opening quotes): last quote wins, history in order,
+    and after its contract is discontinued it reports no price whatever it was opened with.  Returns messages."""
+    from tradingenv.exchange import LimitOrderBook
+    import math
+    QS = [(64.0, 66.0), (70.0, 70.0), (60.0, 63.0)]
+    t0 = datetime(2021, 1, 4)
+    c = ETF("SOLO")
+    book = LimitOrderBook(*opening) if opening else LimitOrderBook()
+    bid, ask = (opening[0], opening[1]) if opening else (float("nan"), float("nan"))
+    hist_ref = []
+    alive = True
+    msgs = []
+    for i, op in enumerate(hist):
+        t = t0 + timedelta(minutes=i + 1)
+        if op == "t":
+            book.terminate(EventContractDiscontinued(t, c))
+            bid = ask = float("nan")
+            alive = False
+        else:
+            b_, a_ = QS[op]
+            book.update(EventNBBO(t, c, b_, a_))
+            bid, ask = b_, a_
+            hist_ref.append((t, b_, a_))
+
+        def eq_(x, y):
+            return (x != x and y != y) or x == y
+        mid = (bid + ask) / 2
+        got = {"bid": book.bid_price, "ask": book.ask_price, "mid": book.mid_price, "buy": book.acq_price(1.0), "sell": book.acq_price(-1.0),
+               "liq long": book.liq_price(1.0), "liq short": book.liq_price(-1.0), "flat": book.acq_price(0)}
+        want = {"bid": bid, "ask": ask, "mid": mid, "buy": ask, "sell": bid, "liq long": bid, "liq short": ask, "flat": mid}
+        for k_ in got:
+            if not eq_(float(got[k_]), float(want[k_])):
+                msgs.append("standalone book opened with %r after %s: %s is %r, expected %r" % (opening, list(hist[:i + 1]), k_, got[k_], want[k_]))
+        if book.is_alive != alive:
+            msgs.append("standalone book after %s: is_alive %r" % (list(hist[:i + 1]), book.is_alive))
+        h = list(zip(book.history["time"], book.history["bid_price"], book.history["ask_price"]))
+        if h != hist_ref:
+            msgs.append("standalone book after %s: history %r, quotes accepted %r" % (list(hist[:i + 1]), h, hist_ref))
+        if msgs:
+            break
+    return msgs
+
+
+def standalone_cases():
+    out = []
+    for opening in (None, (99.0, 101.0), (99.0, 101.0, 100.0, 200.0)):
+        for n in (1, 2, 3):
+            for pre in itertools.product(range(3), repeat=n - 1):
+                out.append((opening, list(pre) + ["t"]))
+                for last in range(3):
+                    out.append((opening, list(pre) + [last]))
+    return out
+
+
 def run(tier, **kw):
     rep = Report("C14", tier, LEVEL)
+    nsolo = 0
+    for opening, hist in standalone_cases():
+        nsolo += 1
+        try:
+            m = standalone_case(opening, hist)
+        except Exception as ex:
+            m = ["standalone book opened with %r, history %s raised %r" % (opening, hist, ex)]
+        if m:
+            rep.violation({"part": "standalone", "opening": list(opening) if opening else None, "history": hist}, m[0], group=("standalone", len(hist)))
+    rep.set("standalone_book_histories", nsolo)
     depth = 4 if tier == "quick" else 5
     ops = alphabet()
     units = [([op], depth) for op in ops]
@@ -270,6 +336,8 @@ def run(tier, **kw):
 
 
 def replay(case, **kw):
+    if case.get("part") == "standalone":
+        return standalone_case(tuple(case["opening"]) if case["opening"] else None, case["history"])
     _PAL[0] = case.get("palette")
     AbstractContract.now = CLOCKS[0]
     ex = Exchange()
